@@ -163,11 +163,11 @@ type recorder struct {
 	// request / message): the logical clock of the post-fault progress verdict
 	timerSent map[int]int64
 	typeSent  map[int]map[string]int64 // node -> payload type -> broadcasts
-	accepted  atomic.Int64 // successful AddBlock calls on any node
+	accepted  atomic.Int64             // successful AddBlock calls on any node
 	// chain events the consensus loop handled while its ledger was already
 	// further (several blocks arrived in one burst)
-	ledgerAhead     int64
-	lastAheadHeight map[int]uint32 // node -> the height dBFT was initialised for by such an event
+	ledgerAhead           int64
+	lastAheadHeight       map[int]uint32 // node -> the height dBFT was initialised for by such an event
 	commitsAfterBurstInit int64
 }
 
